@@ -49,7 +49,7 @@ pub fn run(ctx: &Ctx) -> (Report, PropertyMeta) {
     report.merge(exhaustive_schedules(ctx, 2, t.pick(8, 10), true, true));
     report.merge(exhaustive_schedules(ctx, 3, t.pick(7, 8), true, true));
     report.merge(exhaustive_schedules(ctx, 2, t.pick(7, 9), false, true));
-    let n = t.pick(4000, 120_000);
+    let n = t.pick(20_000, 400_000);
     report.merge(run_random(ctx, "schedule06", n, 40..=200, |s| gen_sched(s, false), |c| sched_outcome(c, true)));
     report.merge(run_random(ctx, "schedule06", n, 40..=200, gen_fair, |c| sched_outcome(c, true)));
     // stale wakes: liveness / safety only (fairness is not asserted with stale wakes)
